@@ -770,3 +770,96 @@ def run_contains(P, rep, rule="R-CONTAINS"):
         rep.viol(rule, site + " no-eq", P.where(fn), "no ValueViewCmp equality in the array branch of contains_check")
     else:
         rep.ok(rule, site, P.where(fn), "membership by ValueViewCmp == (%d site), no string rendering in the array branch" % eqs)
+
+
+# ---------------------------------------------------------------------------------------
+# R-ORIENT: every ordering call in scalar_cmp compares (something of lhs) with (something of rhs), in that order
+
+def _sides(P, fn):
+    """local -> subset of {1, 2}: which parameter's value can flow into it (the scrutinee tuple is split by field)."""
+    tup = {}
+    for b in fn.blocks:
+        for st in b["s"]:
+            if st[0] == "a" and st[2]["k"] == "agg" and st[2].get("ak") == "tuple" and not st[1][1]:
+                tup[st[1][0]] = [op_local(o)[0] if op_local(o) else None for o in st[2]["ops"]]
+    side = {1: {1}, 2: {2}}
+
+    def of_place(pl):
+        base, proj = pl[0], pl[1]
+        if base in tup:
+            for p in proj:
+                if p[0] == "f":
+                    src = tup[base][p[1]] if p[1] < len(tup[base]) else None
+                    return set(side.get(src, set())) if src is not None else set()
+        return set(side.get(base, set()))
+
+    changed = True
+    while changed:
+        changed = False
+        for b in fn.blocks:
+            for st in b["s"]:
+                if st[0] != "a":
+                    continue
+                d, rv = st[1][0], st[2]
+                if d in tup and not st[1][1]:
+                    continue
+                new = set()
+                for k in ("o", "a", "b"):
+                    if k in rv and isinstance(rv[k], list) and op_local(rv[k]):
+                        ol = op_local(rv[k])
+                        new |= of_place([ol[0], ol[1]])
+                if "p" in rv:
+                    new |= of_place(rv["p"])
+                for o in rv.get("ops", []):
+                    ol = op_local(o)
+                    if ol:
+                        new |= of_place([ol[0], ol[1]])
+                if not new <= side.get(d, set()):
+                    side.setdefault(d, set()).update(new)
+                    changed = True
+            t = b["t"]
+            if t["k"] == "call" and not t["d"][1]:
+                new = set()
+                for a in t["args"]:
+                    ol = op_local(a)
+                    if ol:
+                        new |= of_place([ol[0], ol[1]])
+                d = t["d"][0]
+                if not new <= side.get(d, set()):
+                    side.setdefault(d, set()).update(new)
+                    changed = True
+    return side, of_place
+
+
+def run_cmp_orientation(P, rep, rule="R-ORIENT"):
+    fn = P.fn_by_key(CORE_FNS["scalar_cmp"])
+    side, of_place = _sides(P, fn)
+    n = 0
+    for bi, t in P.calls(fn):
+        f = t.get("f")
+        if not f or f["id"].rsplit("::", 1)[1] not in ("partial_cmp", "cmp") or len(t["args"]) < 2:
+            continue
+        r, a = op_local(t["args"][0]), op_local(t["args"][1])
+        if not r or not a:
+            continue
+        sr, sa = of_place([r[0], r[1]]), of_place([a[0], a[1]])
+        site = "scalar_cmp %s#%d" % (f["id"].rsplit("::", 1)[1], n)
+        n += 1
+        # does the result pass through Ordering::reverse before it is returned?
+        rev = False
+        holders = {t["d"][0]}
+        for b2, t2 in P.calls(fn):
+            a0 = op_local(t2["args"][0]) if t2.get("args") else None
+            if a0 and a0[0] in holders and t2.get("f"):
+                last = t2["f"]["id"].rsplit("::", 1)[1]
+                if last == "reverse" or (last == "map" and any(x[0] == "k" and isinstance(x[1], dict) and "reverse" in str(x[1].get("fn", "")) for x in t2["args"][1:])):
+                    rev = True
+        if sr == {2} and sa == {1} and not rev:
+            rep.viol(rule, site, P.where(fn, t["line"]),
+                     "this arm orders (rhs-derived).cmp(lhs-derived) without reversing the result: `a < b` and `b > a` disagree for these kinds")
+        elif sr and sa and sr == sa and len(sr) == 1:
+            rep.viol(rule, site, P.where(fn, t["line"]), "this arm compares one operand with itself (both sides derive from parameter %d)" % list(sr)[0])
+        elif not sr or not sa:
+            rep.ok(rule, site, P.where(fn, t["line"]), "operand origin not resolved (receiver %s, argument %s): not decided" % (sorted(sr), sorted(sa)))
+        else:
+            rep.ok(rule, site, P.where(fn, t["line"]), "receiver derives from %s, argument from %s (1 = lhs, 2 = rhs)%s" % (sorted(sr), sorted(sa), ", reversed" if rev else ""))
